@@ -13,7 +13,8 @@
 ** script op (one transcript line each):
 **   shortio w <cap> <n>      the next <n> write () calls that ask for more than <cap> bytes transfer <cap> bytes (n < 0: every call from now on)
 **   shortio r <cap> <n>      the same for read ()
-**   shortio weintr <n>       the next <n> write () calls fail with EINTR and transfer nothing   (reintr: read)
+**   shortio weintr <n> [<after>]   <n> write () calls fail with EINTR and transfer nothing, starting after <after> further calls (default 0; those calls
+**                            may be shortened by `shortio w`: an interruption in the MIDDLE of one psf_fwrite)   (reintr: read)
 **   shortio skip <k>         the schedules start after <k> further calls of their kind (default 0)
 **   shortio off              disarm everything                                                    -> ok shortio=…
 **   shortio stat             -> calls= wcalls=<write calls seen on fds >= 3> wshort=<shortened> weintr=<interrupted> rcalls= rshort= reintr=
@@ -31,7 +32,7 @@
 #include <fcntl.h>
 #include "sfh.h"
 
-static long w_cap, w_left, r_cap, r_left, w_eintr, r_eintr, w_skip, r_skip ;
+static long w_cap, w_left, r_cap, r_left, w_eintr, r_eintr, w_skip, r_skip, w_eafter, r_eafter ;
 static long st_wcalls, st_wshort, st_weintr, st_rcalls, st_rshort, st_reintr ;
 static long long st_wbytes, st_rbytes ;
 
@@ -55,6 +56,14 @@ write (int fd, const void *buf, size_t n)
 	{	st_wcalls ++ ;
 		if (w_skip > 0)
 			w_skip -- ;
+		else if (w_eintr > 0 && w_eafter > 0)
+		{	w_eafter -- ;
+			if (w_left != 0 && n > (size_t) w_cap)
+			{	if (w_left > 0) w_left -- ;
+				st_wshort ++ ;
+				n = (size_t) w_cap ;
+				} ;
+			}
 		else if (w_eintr > 0)
 		{	w_eintr -- ;
 			st_weintr ++ ;
@@ -80,6 +89,14 @@ read (int fd, void *buf, size_t n)
 	{	st_rcalls ++ ;
 		if (r_skip > 0)
 			r_skip -- ;
+		else if (r_eintr > 0 && r_eafter > 0)
+		{	r_eafter -- ;
+			if (r_left != 0 && n > (size_t) r_cap)
+			{	if (r_left > 0) r_left -- ;
+				st_rshort ++ ;
+				n = (size_t) r_cap ;
+				} ;
+			}
 		else if (r_eintr > 0)
 		{	r_eintr -- ;
 			st_reintr ++ ;
@@ -104,7 +121,7 @@ op_shortio (char **tok, int ntok)
 		return ;
 		} ;
 	if (! strcmp (tok [1], "off"))
-	{	w_cap = w_left = r_cap = r_left = w_eintr = r_eintr = w_skip = r_skip = 0 ;
+	{	w_cap = w_left = r_cap = r_left = w_eintr = r_eintr = w_skip = r_skip = w_eafter = r_eafter = 0 ;
 		st_wcalls = st_wshort = st_weintr = st_rcalls = st_rshort = st_reintr = 0 ;
 		st_wbytes = st_rbytes = 0 ;
 		printf ("ok shortio=off\n") ;
@@ -135,11 +152,13 @@ op_shortio (char **tok, int ntok)
 		}
 	else if (! strcmp (tok [1], "weintr") && ntok >= 3)
 	{	w_eintr = atol (tok [2]) ;
-		printf ("ok shortio=weintr n=%ld\n", w_eintr) ;
+		w_eafter = ntok >= 4 ? atol (tok [3]) : 0 ;
+		printf ("ok shortio=weintr n=%ld after=%ld\n", w_eintr, w_eafter) ;
 		}
 	else if (! strcmp (tok [1], "reintr") && ntok >= 3)
 	{	r_eintr = atol (tok [2]) ;
-		printf ("ok shortio=reintr n=%ld\n", r_eintr) ;
+		r_eafter = ntok >= 4 ? atol (tok [3]) : 0 ;
+		printf ("ok shortio=reintr n=%ld after=%ld\n", r_eintr, r_eafter) ;
 		}
 	else if (! strcmp (tok [1], "skip") && ntok >= 3)
 	{	w_skip = r_skip = atol (tok [2]) ;
